@@ -42,6 +42,18 @@ theorem c05_no_preempt (s : State) (c : Nat) (cs : List Nat) (rev : Bool) (hc : 
     ∧ (∀ i, (step s (Act.wake cs Mode.discard rev)).st i = St.running ↔ s.st i = St.running) := by
   simpa [step, hc, coStep, enqueue] using collect_running s.st cs
 
+/-- **Run to suspension**: control passes from the executing coroutine `c` to anybody else only in a step in
+which `c` itself stops running (it suspended, finished, or called `start()` itself and is blocked in it), and
+that step is never the dropping of a suspend point. -/
+theorem c05_run_to_suspension {s : State} (h : Reachable s) (c : Nat) (hc : s.cur = some c) (a : Act)
+    (hne : (step s a).cur ≠ some c) :
+    (step s a).st c ≠ St.running ∧ (∀ cs rev, a ≠ Act.wake cs Mode.discard rev) := by
+  have hT := reachable_inv (reachable_step h a)
+  refine ⟨fun hr => hne ((hT.running_iff c).1 hr), ?_⟩
+  intro cs rev ha
+  subst ha
+  exact hne (c05_no_preempt s c cs rev hc).1
+
 /-- the same for ordinary code inside an installed queue (`install_queue_and_call` body) -/
 theorem c05_no_preempt_in_block (s : State) (cs : List Nat) (m : Mode) (rev : Bool) (hc : s.cur = none)
     (ha : s.active = true) :
